@@ -18,6 +18,29 @@ def deco2(f):
     return wrapper2
 
 
+class CountCalls:
+    """a class-based decorator: the decorated name is bound to an instance that exposes __wrapped__"""
+
+    def __init__(self, f):
+        functools.update_wrapper(self, f)
+        self.f = f
+        self.calls = 0
+
+    def __call__(self, *a, **kw):
+        self.calls += 1
+        return self.f(*a, **kw)
+
+
+@functools.lru_cache(maxsize=None)
+def cached(a):
+    return a
+
+
+@CountCalls
+def counted(a, b=0):
+    return a
+
+
 def plain(a, b=None, *args, c=1, **kw):
     return a
 
@@ -77,6 +100,11 @@ class K:
     def wcmeth2(cls, a):
         return a
 
+    @staticmethod
+    @functools.lru_cache(maxsize=None)
+    def cached_s(a):
+        return a
+
     class Inner:
         def meth(self, a):
             return a
@@ -104,6 +132,9 @@ FUNCS = {
     "wrapped": wrapped.__wrapped__,
     "wrapped_twice": wrapped_twice.__wrapped__.__wrapped__,
     "gen": gen,
+    "cached": cached.__wrapped__,
+    "counted": counted.__wrapped__,
+    "K.cached_s": K.__dict__["cached_s"].__func__.__wrapped__,
     "coro": coro,
     "K.meth": K.meth,
     "K.cmeth": K.cmeth.__func__,
